@@ -467,6 +467,11 @@ func (r *Runtime) stringproto_normalize(call FunctionCall) Value {
 	case asciiString:
 		return s
 	case unicodeString:
+		if s.hasUnpairedSurrogates() {
+			return s.mapWellFormed(func(str string) String {
+				return newStringValue(f.String(str))
+			})
+		}
 		ss := s.String()
 		return newStringValue(f.String(ss))
 	case *importedString:
